@@ -157,7 +157,32 @@ func civilOf(t timeVal) *civil {
 	D := cx.newVar("civD", sym.SInt, big.NewInt(1), big.NewInt(31))
 	def := sym.And(sym.Eq(daysFromCivilT(Y, M, D), days), sym.Le(D, daysInT(M, Y)))
 	cx.Assume(mkSymBool(def))
+	registerCivil(Y, M, D, days)
 	return &civil{Y, M, D}
+}
+
+// civSucc / civPred: closed forms of the calendar successor / predecessor of a valid civil date
+// (facts of the Gregorian calendar, validated exhaustively by the self-test).
+func civSucc(c *civil) *civil {
+	lastOfMonth := sym.Eq(c.D, daysInT(c.M, c.Y))
+	dec := sym.Eq(c.M, sym.Int(12))
+	return &civil{
+		Y: sym.Ite(sym.And(lastOfMonth, dec), sym.Add(c.Y, sym.Int(1)), c.Y),
+		M: sym.Ite(lastOfMonth, sym.Ite(dec, sym.Int(1), sym.Add(c.M, sym.Int(1))), c.M),
+		D: sym.Ite(lastOfMonth, sym.Int(1), sym.Add(c.D, sym.Int(1))),
+	}
+}
+
+func civPred(c *civil) *civil {
+	first := sym.Eq(c.D, sym.Int(1))
+	jan := sym.Eq(c.M, sym.Int(1))
+	pm := sym.Ite(jan, sym.Int(12), sym.Sub(c.M, sym.Int(1)))
+	py := sym.Ite(sym.And(first, jan), sym.Sub(c.Y, sym.Int(1)), c.Y)
+	return &civil{
+		Y: py,
+		M: sym.Ite(first, pm, c.M),
+		D: sym.Ite(first, daysInT(pm, py), sym.Sub(c.D, sym.Int(1))),
+	}
 }
 
 // dateT implements time.Date normalisation.
@@ -586,7 +611,20 @@ func init() {
 	})
 	reg("(time.Time).Add", func(fr *frame, a []value) value {
 		t := timeArg(a[0])
-		return mkTime(t.daysT(), sym.Add(t.nsT(), intTermArg(a[1])), nil)
+		d := intTermArg(a[1])
+		total := sym.Add(t.nsT(), d)
+		if t.civ != nil && total.IsConst() {
+			q, r := new(big.Int).DivMod(total.IV, nsPerDay, new(big.Int))
+			switch {
+			case q.Sign() == 0:
+				return timeVal{days: t.daysT(), ns: sym.IntBig(r), civ: t.civ}
+			case q.IsInt64() && q.Int64() == 1:
+				return timeVal{days: sym.Add(t.daysT(), sym.Int(1)), ns: sym.IntBig(r), civ: civSucc(t.civ)}
+			case q.IsInt64() && q.Int64() == -1:
+				return timeVal{days: sym.Sub(t.daysT(), sym.Int(1)), ns: sym.IntBig(r), civ: civPred(t.civ)}
+			}
+		}
+		return mkTime(t.daysT(), total, nil)
 	})
 	reg("(time.Time).Sub", func(fr *frame, a []value) value {
 		t, u := timeArg(a[0]), timeArg(a[1])
@@ -613,7 +651,24 @@ func init() {
 	reg("(time.Time).AddDate", func(fr *frame, a []value) value {
 		t := timeArg(a[0])
 		c := civilOf(t)
-		r := dateT(sym.Add(c.Y, intTermArg(a[1])), sym.Add(c.M, intTermArg(a[2])), sym.Add(c.D, intTermArg(a[3])), sym.Int(0), sym.Int(0), sym.Int(0), sym.Int(0))
+		dy, dm, dd := intTermArg(a[1]), intTermArg(a[2]), intTermArg(a[3])
+		if dy.IsConst() && dm.IsConst() && dd.IsConst() && dy.IV.Sign() == 0 && dm.IV.Sign() == 0 && !c.D.IsConst() {
+			// +-1 day on a valid civil date: closed forms of the calendar successor / predecessor
+			// (facts of the Gregorian calendar, validated exhaustively by the self-test)
+			switch dd.IV.Int64() {
+			case 0:
+				return t
+			case 1:
+				return timeVal{days: sym.Add(t.daysT(), sym.Int(1)), ns: t.nsT(), civ: civSucc(c)}
+			case -1:
+				return timeVal{days: sym.Sub(t.daysT(), sym.Int(1)), ns: t.nsT(), civ: civPred(c)}
+			}
+		}
+		if dy.IsConst() && dm.IsConst() && dd.IsConst() && dy.IV.Sign() == 0 && dm.IV.Sign() == 0 && c.D.IsConst() && c.D.IV.Int64() == 1 && dd.IV.Int64() == -1 {
+			// the day before the first of a month
+			return timeVal{days: sym.Sub(t.daysT(), sym.Int(1)), ns: t.nsT(), civ: civPred(c)}
+		}
+		r := dateT(sym.Add(c.Y, dy), sym.Add(c.M, dm), sym.Add(c.D, dd), sym.Int(0), sym.Int(0), sym.Int(0), sym.Int(0))
 		return timeVal{days: r.daysT(), ns: t.nsT(), civ: r.civ}
 	})
 	reg("(time.Time).Year", func(fr *frame, a []value) value { return mkSymInt(civilOf(timeArg(a[0])).Y, types.Int) })
